@@ -348,7 +348,10 @@ func (e *engineA) converged() (bool, string) {
 
 // load ------------------------------------------------------------------------
 
-func (e *engineA) startClients(k int, ops map[string]int) {
+func (e *engineA) startClients(k int, ops map[string]int) { e.startClientsOn(e.cl, k, ops) }
+
+// startClientsOn starts k client goroutines against cluster cl.
+func (e *engineA) startClientsOn(cl *Cluster, k int, ops map[string]int) {
 	for i := 1; i <= k; i++ {
 		e.clientWG.Add(1)
 		rng := rand.New(rand.NewSource(e.cfg.Seed*131 + int64(i)))
@@ -365,7 +368,7 @@ func (e *engineA) startClients(k int, ops map[string]int) {
 					time.Sleep(e.hb() / 4)
 					continue
 				}
-				live := e.cl.liveNodes()
+				live := cl.liveNodes()
 				if len(live) == 0 {
 					time.Sleep(e.hb() / 2)
 					continue
@@ -378,12 +381,12 @@ func (e *engineA) startClients(k int, ops map[string]int) {
 					n = live[rng.Intn(len(live))]
 				}
 				op := pickWeighted(rng, ops)
-				r := e.cl.fsmOp(id, n, op)
+				r := cl.fsmOp(id, n, op)
 				if r.ok {
 					sticky = n
 					if op == "update" && rng.Intn(3) == 0 {
 						// back to back read on the same node (C07 rule ii)
-						e.cl.fsmOp(id, n, "read")
+						cl.fsmOp(id, n, "read")
 					}
 				} else {
 					sticky = nil
